@@ -535,6 +535,62 @@ func c06Case(run *evid.Run, i int, j *Journal) {
 		}
 	}
 
+	// (f) a log that offers, as a head, a tampered object under the hash of an entry the destination HOLDS:
+	// nothing in it is a candidate, so whatever Join returns the destination must stay as it is and keep handing
+	// out the entry it validated
+	for r, l := range x.Logs {
+		if l.Len() == 0 || (i+r)%2 != 0 {
+			continue
+		}
+		lo := x.W.LogOpts(x.W.LogID)
+		lo.Entries = l.GetEntries()
+		lo.Heads = l.Heads().Slice()
+		dst, err := ipfslog.NewLog(x.W.Store.API(), x.W.Idents[0], lo)
+		if err != nil {
+			panic(err)
+		}
+		pool := l.Heads().Slice()
+		where := "head"
+		if rng.Intn(3) == 0 {
+			pool = l.Values().Slice()
+			where = "any"
+		}
+		victim := pool[rng.Intn(len(pool))]
+		kind := corruptKinds[rng.Intn(len(corruptKinds))]
+		if kind == "sigother" || kind == "otherkey" {
+			kind = "payload"
+		}
+		ce, _ := corrupt(kind, victim, victim, rng)
+		ents := l.GetEntries()
+		ents.Set(victim.GetHash().String(), ce)
+		lo2 := x.W.LogOpts(x.W.LogID)
+		lo2.Entries = ents
+		lo2.Heads = []iface.IPFSLogEntry{ce}
+		src, err := ipfslog.NewLog(x.W.Store.API(), x.W.Idents[0], lo2)
+		if err != nil {
+			panic(err)
+		}
+		desc := fmt.Sprintf("copy-of-r%d <- log whose head is a %s-tampered object under the hash of the destination's own entry %s (%s)", r, kind, hx.Short(victim.GetHash().String()), where)
+		j.Log(map[string]any{"case": i, "codec": h.Codec, "phase": "held-look-alike", "desc": desc})
+		before := hx.Observe(dst)
+		_, jerr := dst.Join(src, -1)
+		hx.OnObserve = nil // reported here with the full witness
+		after := hx.Observe(dst)
+		InstallObserveHook(run)
+		run.Count("merges_offering_a_look_alike_of_a_held_entry", 1)
+		d := det("codec", h.Codec, "kind", kind, "position", where)
+		if len(after.Differ) > 0 {
+			run.Violate("C06/look-alike-handed-out", d, wit(desc), "after a merge (returned %v) the log hands out a never-validated object under the hash of an entry it holds: %s (%s)", jerr, after.Differ[0], desc)
+		}
+		if df := obsEqual(before, after); df != "" {
+			run.Violate("C06/look-alike-changed-log", d, wit(desc), "a merge offering no candidate (returned %v) changed the log: %s (%s)", jerr, df, desc)
+		}
+		if got, ok := dst.Get(victim.GetHash()); !ok || hx.ContentDigest(got) != hx.ContentDigest(victim) {
+			run.Violate("C06/look-alike-handed-out", d, wit(desc), "Get() no longer returns the validated entry (%s)", desc)
+		}
+		run.NonTrivial("look-alike/" + kind + "/" + where + "/" + h.Codec)
+	}
+
 	// (b') a log restored from storage with a restrictive controller still enforces it
 	for r, l := range x.Logs {
 		if l.Len() == 0 || i%2 != 0 {
